@@ -15,41 +15,137 @@ import (
 const formShards = 16
 const ctorShards = 8
 
-// crossCheckForms compares the AST-extracted rows with the compiled table
-// (x86.VerifForms through the verif hook) and fails loudly on any difference.
-func crossCheckForms(t *optabAST) error {
-	vf := x86.VerifForms()
-	if len(vf) != len(t.Forms) {
-		return fmt.Errorf("AST extraction found %d form rows, the compiled table has %d", len(t.Forms), len(vf))
+// formsFromCompiled tabulates the compiled form table (x86.VerifForms through the verif hook) with the codes the
+// Lean model uses: opcode and ISA codes are recovered from the opcode string / ISA list through the small tables,
+// identifiers through the enums.  This is what the program does, whatever the source literal looks like.
+func formsFromCompiled(t *optabAST) ([]optabForm, error) {
+	opcOf := map[string]int{}
+	for i, s := range t.OpcStrings {
+		if _, dup := opcOf[s]; dup {
+			return nil, fmt.Errorf("opcode string %q occurs twice in opcstringtable", s)
+		}
+		opcOf[s] = i + 1
 	}
+	isaOf := map[string]int{}
+	for i, l := range t.IsasLists {
+		k := strings.Join(l, ",")
+		if _, dup := isaOf[k]; !dup {
+			isaOf[k] = i + 1
+		}
+	}
+	name := func(xs []string, code int) string {
+		if code >= 1 && code <= len(xs) {
+			return xs[code-1]
+		}
+		return ""
+	}
+	actName := map[int]string{}
+	for _, a := range t.Actions {
+		actName[fixedAction(t, int(t.Consts[a]))] = a
+	}
+	var out []optabForm
+	for i, c := range x86.VerifForms() {
+		fr := optabForm{Opc: opcOf[c.Opcode], Cls: int(c.SuffixesClass), Features: int(c.Features), Arity: int(c.Arity)}
+		if fr.Opc == 0 {
+			return nil, fmt.Errorf("form row %d: opcode %q of the compiled table is not in opcstringtable", i, c.Opcode)
+		}
+		isa, ok := isaOf[strings.Join(c.ISAs, ",")]
+		if !ok {
+			return nil, fmt.Errorf("form row %d: ISA list %v of the compiled table is not in isaslisttable", i, c.ISAs)
+		}
+		fr.Isa = isa
+		fr.OpcIdent, fr.ClsIdent, fr.IsaIdent = name(t.Opcs, fr.Opc), name(t.SffxsCls, fr.Cls), name(t.Isas, fr.Isa)
+		for _, o := range c.Operands {
+			od := optabOprnd{Type: int(o.Type), Implicit: o.Implicit, Action: int(o.Action), ActIdent: actName[int(o.Action)]}
+			if o.Implicit {
+				od.TypeIdent = name(t.ImplRegs, od.Type)
+			} else {
+				od.TypeIdent = name(t.OprndTypes, od.Type)
+			}
+			fr.Operands = append(fr.Operands, od)
+		}
+		out = append(out, fr)
+	}
+	return out, nil
+}
+
+// The verif hook reports feature flags and operand actions in a FIXED layout that does not depend on the numbering
+// of the internal constants of x86/optab.go: features 1 terminal, 2 branch, 4 conditional branch, 8 cancelling
+// inputs; actions 1 read, 2 write.  Values written in the SOURCE (the AST rows) are translated into that layout
+// through the constants of the source, so that renumbering the constants is harmless.
+func fixedFeatures(t *optabAST, raw int) int {
+	v := 0
+	for _, p := range []struct {
+		name string
+		bit  int
+	}{{"featureTerminal", 1}, {"featureBranch", 2}, {"featureConditionalBranch", 4}, {"featureCancellingInputs", 8}} {
+		if c, ok := t.Consts[p.name]; ok && raw&int(c) != 0 {
+			v |= p.bit
+		}
+	}
+	return v
+}
+
+func fixedAction(t *optabAST, raw int) int {
+	v := 0
+	if c, ok := t.Consts["actionR"]; ok && raw&int(c) != 0 {
+		v |= 1
+	}
+	if c, ok := t.Consts["actionW"]; ok && raw&int(c) != 0 {
+		v |= 2
+	}
+	return v
+}
+
+// rangesFromCompiled: per opcode code the block of rows the compiled package reports for it.
+func rangesFromCompiled(t *optabAST) ([][2]int, error) {
+	m := x86.VerifOpcodeForms()
+	var out [][2]int
+	for _, s := range t.OpcStrings {
+		r, ok := m[s]
+		if !ok {
+			return nil, fmt.Errorf("opcode %q has no entry in the compiled opcformstable", s)
+		}
+		out = append(out, r)
+	}
+	return out, nil
+}
+
+// crossCheckForms compares the rows read from the source literal (when it was readable) with the compiled table
+// and fails loudly on any difference; table dimensions are compared in any case.
+func crossCheckForms(t *optabAST) error {
 	if x86.VerifMaxOperands() != t.MaxOperands {
 		return fmt.Errorf("maxoperands: AST %d, compiled %d", t.MaxOperands, x86.VerifMaxOperands())
 	}
 	if int(x86.VerifOprndTypeMax()) != len(t.OprndTypes)+1 {
 		return fmt.Errorf("oprndtypemax: AST %d, compiled %d", len(t.OprndTypes)+1, x86.VerifOprndTypeMax())
 	}
-	for i := range vf {
-		a, c := &t.Forms[i], &vf[i]
-		opcName := ""
-		if a.Opc >= 1 && a.Opc <= len(t.OpcStrings) {
-			opcName = t.OpcStrings[a.Opc-1]
-		}
-		var isa []string
+	if t.ASTForms == nil {
+		return nil
+	}
+	if len(t.ASTForms) != len(t.Forms) {
+		return fmt.Errorf("AST extraction found %d form rows, the compiled table has %d", len(t.ASTForms), len(t.Forms))
+	}
+	for i := range t.Forms {
+		a, c := &t.ASTForms[i], &t.Forms[i]
+		isaA, isaC := []string(nil), []string(nil)
 		if a.Isa >= 1 && a.Isa <= len(t.IsasLists) {
-			isa = t.IsasLists[a.Isa-1]
+			isaA = t.IsasLists[a.Isa-1]
 		}
-		bad := opcName != c.Opcode || a.Cls != int(c.SuffixesClass) || a.Features != int(c.Features) ||
-			a.Arity != int(c.Arity) || len(a.Operands) != len(c.Operands) ||
-			!(len(isa) == 0 && len(c.ISAs) == 0 || reflect.DeepEqual(isa, c.ISAs))
+		if c.Isa >= 1 && c.Isa <= len(t.IsasLists) {
+			isaC = t.IsasLists[c.Isa-1]
+		}
+		bad := a.Opc != c.Opc || a.Cls != c.Cls || fixedFeatures(t, a.Features) != c.Features || a.Arity != c.Arity || len(a.Operands) != len(c.Operands) ||
+			!(len(isaA) == 0 && len(isaC) == 0 || reflect.DeepEqual(isaA, isaC))
 		if !bad {
 			for j := range a.Operands {
-				if a.Operands[j].Type != int(c.Operands[j].Type) || a.Operands[j].Implicit != c.Operands[j].Implicit || a.Operands[j].Action != int(c.Operands[j].Action) {
+				if a.Operands[j].Type != c.Operands[j].Type || a.Operands[j].Implicit != c.Operands[j].Implicit || fixedAction(t, a.Operands[j].Action) != c.Operands[j].Action {
 					bad = true
 				}
 			}
 		}
 		if bad {
-			return fmt.Errorf("form row %d: AST extraction %+v (opcode %q isa %v) differs from the compiled table %+v", i, *a, opcName, isa, *c)
+			return fmt.Errorf("form row %d: AST extraction %+v differs from the compiled table %+v", i, *a, *c)
 		}
 	}
 	return nil
@@ -152,12 +248,17 @@ func genFormsMeta(repo string) (string, error) {
 	}
 	b.WriteString("],\n")
 	fmt.Fprintf(&b, "  maxOperands := %d,\n  maxSuffixes := %d,\n", t.MaxOperands, t.MaxSuffixes)
-	for _, p := range [][2]string{{"featTerminal", "featureTerminal"}, {"featBranch", "featureBranch"}, {"featConditional", "featureConditionalBranch"}, {"featCancelling", "featureCancellingInputs"}, {"actionR", "actionR"}, {"actionW", "actionW"}} {
-		v, ok := t.Consts[p[1]]
-		if !ok {
-			return "", fmt.Errorf("constant %s not found in x86/optab.go", p[1])
+	// the rows carry features / actions in the hook's fixed layout (see fixedFeatures); the constants of
+	// x86/optab.go must exist (they are what the hook translates from) but their numbering plays no role
+	for _, p := range []struct {
+		lean, src string
+		val       int
+	}{{"featTerminal", "featureTerminal", 1}, {"featBranch", "featureBranch", 2}, {"featConditional", "featureConditionalBranch", 4},
+		{"featCancelling", "featureCancellingInputs", 8}, {"actionR", "actionR", 1}, {"actionW", "actionW", 2}} {
+		if _, ok := t.Consts[p.src]; !ok {
+			return "", fmt.Errorf("constant %s not found in x86/optab.go", p.src)
 		}
-		fmt.Fprintf(&b, "  %s := %d,\n", p[0], v)
+		fmt.Fprintf(&b, "  %s := %d,\n", p.lean, p.val)
 	}
 	b.WriteString("}\n")
 	fmt.Fprintf(&b, "def nForms : Nat := %d\n", len(t.Forms))
